@@ -52,10 +52,13 @@ type CmdGrammar struct {
 	Name     string
 	Parser   string
 	Required int
-	Combs    []*Comb // nil for hand-written parsers
-	Arity    []int   // hand-written: accepted argument counts (exact), or nil
-	MinArity int     // hand-written: minimum (when the check is "<")
+	Combs    []*Comb  // nil for hand-written parsers
+	Arity    []int    // hand-written: accepted argument counts (exact), or nil
+	MinArity int      // hand-written: minimum (when the check is "<")
+	Lits     []string // hand-written: the string literals the parser compares arguments with (subcommands)
 }
+
+var reCaseLit = regexp.MustCompile(`"([a-zA-Z][a-zA-Z0-9_-]*)"`)
 
 var reArityNe = regexp.MustCompile(`len\(cmd\.Args\(\)\) != (\d+)`)
 var reArityLt = regexp.MustCompile(`len\(cmd\.Args\(\)\) < (\d+)`)
@@ -93,6 +96,9 @@ func (f *Facts) Grammars() []*CmdGrammar {
 			}
 			if m := reArityLt.FindStringSubmatch(tree); m != nil {
 				g.MinArity, _ = strconv.Atoi(m[1])
+			}
+			for _, m := range reCaseLit.FindAllStringSubmatch(tree, -1) {
+				g.Lits = append(g.Lits, m[1])
 			}
 		}
 		out = append(out, g)
@@ -180,6 +186,8 @@ type WireGen struct {
 	Keys    []string
 	Hostile bool // C14: hostile tokens everywhere
 	NowSec  int64
+	// Lits: command name -> literals its hand-written parser knows (subcommands)
+	Lits map[string][]string
 }
 
 var wireVals = []string{"a", "b", "c", "v1", "", "10", "-1", "0", "1.5", "nx", "EX", "get", "match", "withscores", "limit", "x\x00y", "\xff\xfe", "*"}
@@ -402,7 +410,7 @@ func (g *WireGen) Vector(cg *CmdGrammar, malformed float64) []string {
 	} else if cg.MinArity > 0 {
 		n = cg.MinArity + g.pick(3)
 	} else {
-		n = g.pick(3)
+		n = g.pick(5)
 	}
 	if g.chance(malformed) {
 		n += []int{-1, 1}[g.pick(2)]
@@ -411,7 +419,9 @@ func (g *WireGen) Vector(cg *CmdGrammar, malformed float64) []string {
 		}
 	}
 	for i := 0; i < n; i++ {
-		if i == 0 || (cg.Name == "rename" || cg.Name == "renamenx" || cg.Name == "mget") {
+		if len(cg.Lits) > 0 && (i == 0 && g.chance(0.8) || i > 0 && g.chance(0.15)) {
+			out = append(out, g.randCase(cg.Lits[g.pick(len(cg.Lits))]))
+		} else if i == 0 || (cg.Name == "rename" || cg.Name == "renamenx" || cg.Name == "mget") {
 			out = append(out, g.key())
 		} else if cg.Name == "incr" || cg.Name == "decr" {
 			out = append(out, g.key())
@@ -422,17 +432,63 @@ func (g *WireGen) Vector(cg *CmdGrammar, malformed float64) []string {
 	return out
 }
 
+// OptChoice names one way of writing an option: a non-positional combinator (index in cg.Combs)
+// and, for a OneOf, which of its alternatives.
+type OptChoice struct{ Comb, Alt int }
+
+// VectorOpts generates a well-formed vector with exactly the option choices listed, in that order.
+func (g *WireGen) VectorOpts(cg *CmdGrammar, which []OptChoice) []string {
+	out := []string{cg.Name}
+	nkeys := 1
+	for _, c := range cg.Combs {
+		if positional(c) {
+			out = append(out, g.genComb(c, 0, &nkeys)...)
+		}
+	}
+	for _, w := range which {
+		c := cg.Combs[w.Comb]
+		if c.Name == "OneOf" && w.Alt >= 0 && w.Alt < len(c.Sub) {
+			c = c.Sub[w.Alt]
+		}
+		out = append(out, g.genComb(c, 0, &nkeys)...)
+	}
+	return out
+}
+
+// Options lists the option choices of the grammar (every alternative of a OneOf separately).
+func (cg *CmdGrammar) Options() []OptChoice {
+	var o []OptChoice
+	for i, c := range cg.Combs {
+		if positional(c) {
+			continue
+		}
+		if c.Name == "OneOf" {
+			for j := range c.Sub {
+				o = append(o, OptChoice{i, j})
+			}
+		} else {
+			o = append(o, OptChoice{i, -1})
+		}
+	}
+	return o
+}
+
 // HostileVector is an arbitrary vector over the hostile pool (C14).
 func (g *WireGen) HostileVector(names []string) []string {
 	var out []string
+	var lits []string
 	if g.chance(0.85) {
-		out = append(out, g.randCase(names[g.pick(len(names))]))
+		nm := names[g.pick(len(names))]
+		lits = g.Lits[nm]
+		out = append(out, g.randCase(nm))
 	} else {
 		out = append(out, hostileToks[g.pick(len(hostileToks))])
 	}
 	n := g.pick(7)
 	for i := 0; i < n; i++ {
-		if g.chance(0.3) {
+		if len(lits) > 0 && (i == 0 && g.chance(0.7) || g.chance(0.1)) {
+			out = append(out, g.randCase(lits[g.pick(len(lits))]))
+		} else if g.chance(0.3) {
 			out = append(out, g.key())
 		} else {
 			out = append(out, hostileToks[g.pick(len(hostileToks))])
